@@ -220,6 +220,8 @@ def write_toml(path, cfg, docroot):
     import tomli_w
 
     ac = {"default_allow": cfg["default_allow"]}
+    if cfg["default_allow"] and (len(str(cfg["allow"])) + len(str(cfg["deny"]))) % 2:
+        del ac["default_allow"]  # documented default is true: a file may simply not say it
     if cfg["allow"] is not None:
         ac["allow_list"] = cfg["allow"]
     if cfg["deny"] is not None:
